@@ -128,7 +128,7 @@ class Ctx:
         if nviol:
             os.makedirs(os.path.join(REPLAYS, self.pid), exist_ok=True)
             shown = [v for v in self.violations if v is not None]
-            for v in shown[:12]:
+            for v in shown[:int(os.environ.get('VERIF_MAXSHOW', '12'))]:
                 blob = json.dumps(v, sort_keys=True, indent=1)
                 hsh = hashlib.sha1(blob.encode()).hexdigest()[:12]
                 path = os.path.join(REPLAYS, self.pid, f'{hsh}.json')
